@@ -17,6 +17,11 @@ pub fn fuzz_bin(target: &str) -> Option<String> {
 
 /// Run one campaign. A crash artifact becomes a violation whose replay file is the artifact.
 pub fn campaign(ctx: &Ctx, prop: &str, target: &str, runs: u64, max_len: u32) -> SubReport {
+    campaign_env(ctx, prop, target, runs, max_len, &[])
+}
+
+/// `env`: extra environment of the fuzz processes (PV_OWNER for the lockstep_ref target).
+pub fn campaign_env(ctx: &Ctx, prop: &str, target: &str, runs: u64, max_len: u32, env: &[(&str, &str)]) -> SubReport {
     let mut rep = SubReport::new(&format!("libfuzzer-{}", target));
     crate::supervise::journal_clear();
     let bin = match fuzz_bin(target) {
@@ -50,7 +55,12 @@ pub fn campaign(ctx: &Ctx, prop: &str, target: &str, runs: u64, max_len: u32) ->
                 let _ = std::fs::copy(e.path(), format!("{}/{}", cdir, e.file_name().to_string_lossy()));
             }
         }
-        let child = std::process::Command::new(&bin)
+        let dict = format!("{}/fuzz/dict/{}.dict", crate::verif_root(), target);
+        let mut cmd = std::process::Command::new(&bin);
+        if Path::new(&dict).exists() {
+            cmd.arg(format!("-dict={}", dict));
+        }
+        let child = cmd
             .arg(&cdir)
             .arg(format!("-runs={}", per))
             .arg(format!("-seed={}", ((ctx.seed.wrapping_mul(1000) + w as u64) % 4_000_000_000).max(1)))
@@ -60,11 +70,14 @@ pub fn campaign(ctx: &Ctx, prop: &str, target: &str, runs: u64, max_len: u32) ->
             .arg("-print_final_stats=1")
             .arg("-rss_limit_mb=3000")
             .env("RUST_BACKTRACE", "0")
+            .envs(env.iter().map(|(k, v)| (k.to_string(), v.to_string())))
             .stdout(std::process::Stdio::null())
-            .stderr(std::process::Stdio::piped())
+            // libFuzzer's log goes to a file: a pipe read one child after the other blocks the
+            // other children as soon as their 64 KiB pipe buffer is full
+            .stderr(std::fs::File::create(format!("{}/stderr{}.log", work, w)).map(std::process::Stdio::from).unwrap_or_else(|_| std::process::Stdio::null()))
             .spawn();
         match child {
-            Ok(c) => children.push((cdir, c)),
+            Ok(c) => children.push((cdir, format!("{}/stderr{}.log", work, w), c)),
             Err(e) => {
                 rep.inconclusive.push(format!("cannot run fuzz target {}: {}", target, e));
                 return rep;
@@ -75,18 +88,18 @@ pub fn campaign(ctx: &Ctx, prop: &str, target: &str, runs: u64, max_len: u32) ->
     let mut execs = 0u64;
     let mut corpus_n = 0u64;
     let mut all_ok = true;
-    for (cdir, c) in children {
-        match c.wait_with_output() {
-            Ok(o) => {
-                let t = String::from_utf8_lossy(&o.stderr).to_string();
+    for (cdir, logf, mut c) in children {
+        match c.wait() {
+            Ok(status) => {
+                let t = std::fs::read(&logf).map(|b| String::from_utf8_lossy(&b).to_string()).unwrap_or_default();
                 for l in t.lines() {
                     if let Some(x) = l.strip_prefix("stat::number_of_executed_units:") {
                         execs += x.trim().parse::<u64>().unwrap_or(0);
                     }
                 }
-                if !o.status.success() {
+                if !status.success() {
                     all_ok = false;
-                    text.push_str(&t.lines().rev().take(12).collect::<Vec<_>>().into_iter().rev().collect::<Vec<_>>().join("\n"));
+                    text.push_str(&t.lines().rev().take(60).collect::<Vec<_>>().into_iter().rev().collect::<Vec<_>>().join("\n"));
                 }
                 corpus_n += std::fs::read_dir(&cdir).map(|r| r.count()).unwrap_or(0) as u64;
             }
@@ -111,7 +124,7 @@ pub fn campaign(ctx: &Ctx, prop: &str, target: &str, runs: u64, max_len: u32) ->
             let dest = format!("{}/fuzz-{}-{}", dir, target, name);
             let _ = std::fs::copy(a, &dest);
             // the crash message of the first artifact
-            let msg = text.lines().filter(|l| l.contains("panicked at") || l.contains("ERROR: libFuzzer")).take(2).collect::<Vec<_>>().join(" | ");
+            let msg = text.lines().filter(|l| l.contains("panicked at") || l.contains("ERROR: libFuzzer") || l.starts_with("LOCKSTEP-MISMATCH")).take(3).collect::<Vec<_>>().join(" | ").chars().take(900).collect::<String>();
             if i == 0 {
                 rep.violations.push(Violation {
                     signature: format!("{}/libfuzzer-{}/crash", prop, target),
@@ -130,14 +143,14 @@ pub fn campaign(ctx: &Ctx, prop: &str, target: &str, runs: u64, max_len: u32) ->
 }
 
 /// Replay a saved fuzz artifact: run the target binary on it.
-pub fn replay_artifact(target: &str, path: &str) -> Result<(), Fail> {
+pub fn replay_artifact(prop: &str, target: &str, path: &str) -> Result<(), Fail> {
     let bin = fuzz_bin(target).ok_or_else(|| Fail::new("replay-needs-fuzz-build", "fuzz target not built"))?;
-    let out = std::process::Command::new(&bin).arg(path).env("RUST_BACKTRACE", "0").output().map_err(|e| Fail::new("replay-spawn", e.to_string()))?;
+    let out = std::process::Command::new(&bin).arg(path).env("RUST_BACKTRACE", "0").env("PV_OWNER", prop).output().map_err(|e| Fail::new("replay-spawn", e.to_string()))?;
     if out.status.success() {
         Ok(())
     } else {
         let text = String::from_utf8_lossy(&out.stderr).to_string();
-        let msg = text.lines().filter(|l| l.contains("panicked at")).take(1).collect::<Vec<_>>().join(" ");
+        let msg = text.lines().filter(|l| l.contains("panicked at") || l.starts_with("LOCKSTEP-MISMATCH")).take(2).collect::<Vec<_>>().join(" ").chars().take(900).collect::<String>();
         Err(Fail::new(format!("libfuzzer-{}/crash", target), msg))
     }
 }
